@@ -327,6 +327,60 @@ fn viol(acc: &mut Acc, q: &Quad, what: &str, detail: String, history: &[(i32, bo
     );
 }
 
+/// In situ (instruction level): after every successful instruction of a history workload every tick-array
+/// account of the pools it touched must be a well-formed encoding of its kind AND its account must have exactly
+/// the size that encoding needs - a fixed array 9988 bytes, a dynamic array 148 + 112 x (initialized ticks), with
+/// bitmap == initialized slots - and be rent exempt for that size. This is where the grow / shrink and rent
+/// bookkeeping of the liquidity instructions (Anchor and Pinocchio) shows: lower and upper arrays of either kind,
+/// the same account for both bounds, transitions to and from zero.
+#[derive(Default)]
+pub struct C13InSitu;
+impl crate::hist::Monitor for C13InSitu {
+    fn after(&mut self, w: &mut crate::world::World, obs: &crate::world::Obs, acc: &mut Acc) {
+        if !obs.ok() {
+            return;
+        }
+        let rent = solana_program::rent::Rent::default();
+        for m in &obs.ix.metas {
+            let Some(a) = w.bank.get(&m.key) else { continue };
+            if a.owner != whirlpool::ID {
+                continue;
+            }
+            let Some(dec) = codec::TickArray::decode(&a.data) else { continue };
+            acc.count("tick_array_accounts_checked");
+            let fail = |acc: &mut Acc, sig: &str, detail: String| {
+                acc.violation(format!("tickarray:in_situ:{sig}:{}", obs.ix.name), detail, json!({"account": m.key.to_string(), "slot": m.name, "instruction": crate::hist::ix_brief(&obs.ix)}));
+            };
+            match dec {
+                Err(e) => fail(acc, "malformed", format!("{} ({} bytes): {e}", m.key, a.data.len())),
+                Ok(ta) => {
+                    let n = ta.count_initialized();
+                    let want = if ta.dynamic { 148 + 112 * n } else { codec::FIXED_TICK_ARRAY_LEN };
+                    if a.data.len() != want {
+                        fail(acc, "account_size", format!("{} tick array with {n} initialized ticks is {} bytes long, its encoding needs {want}", if ta.dynamic { "dynamic" } else { "fixed" }, a.data.len()));
+                    }
+                    if ta.dynamic {
+                        let set: u128 = ta.ticks.iter().enumerate().filter(|(_, t)| t.initialized).fold(0u128, |b, (i, _)| b | (1u128 << i));
+                        if set != ta.bitmap {
+                            fail(acc, "bitmap", format!("bitmap {:#x} but the tags mark {:#x}", ta.bitmap, set));
+                        }
+                        if ta.used_len != a.data.len() {
+                            fail(acc, "used_length", format!("records end at byte {} of {}", ta.used_len, a.data.len()));
+                        }
+                        acc.count("dynamic_tick_arrays_checked");
+                        if obs.pre.get(&m.key).map(|p| p.data.len()) != Some(a.data.len()) {
+                            acc.count("dynamic_tick_array_resizes_seen");
+                        }
+                    }
+                    if a.lamports < rent.minimum_balance(a.data.len()) {
+                        fail(acc, "rent", format!("{} lamports for {} bytes (needs {})", a.lamports, a.data.len(), rent.minimum_balance(a.data.len())));
+                    }
+                }
+            }
+        }
+    }
+}
+
 /// Fill one array completely (all 88 slots initialized, random order) and empty it again (another random order),
 /// with the encoding oracle after every update and the complete query set every `q_every` updates and at the two
 /// extremes. Random toggling never reaches a full array; the last insertions are where the packed region is longest.
@@ -383,7 +437,7 @@ pub fn fill_and_drain(start: i32, spacing: u16, r: &mut rnd::R, q_every: usize, 
 
 pub fn run(tier: Tier, seed: u64) -> i32 {
     let mut rep = Report::new("C13", tier, seed);
-    rep.rule = "exhaustive: for spacings {1,64,32896} x starts {0, a negative array, the MIN-straddling array}, every subset (256) of the boundary slots {0,1,62,63,64,65,86,87} as initialized set, every single update (initialize/modify, de-initialize) of every boundary slot, and after each the complete query set (get_tick on slots -2..89, unaligned and out-of-bounds indexes; get_next_init_tick_index from every slot in both directions incl. the shifted range) compared across Anchor fixed, Anchor dynamic, Pinocchio fixed, Pinocchio dynamic and an abstract slot map, plus encoding well-formedness (bitmap, 113/1-byte records in slot order, used length 148+112n, Anchor bytes == Pinocchio bytes). random: long update/query sequences over all 88 slots, one in ten a fill-and-drain sweep (every slot initialized in random order until the array is full, then emptied). distinct = (spacing, start class, initialized-set, transition)".into();
+    rep.rule = "exhaustive: for spacings {1,64,32896} x starts {0, a negative array, the MIN-straddling array}, every subset (256) of the boundary slots {0,1,62,63,64,65,86,87} as initialized set, every single update (initialize/modify, de-initialize) of every boundary slot, and after each the complete query set (get_tick on slots -2..89, unaligned and out-of-bounds indexes; get_next_init_tick_index from every slot in both directions incl. the shifted range) compared across Anchor fixed, Anchor dynamic, Pinocchio fixed, Pinocchio dynamic and an abstract slot map, plus encoding well-formedness (bitmap, 113/1-byte records in slot order, used length 148+112n, Anchor bytes == Pinocchio bytes). random: long update/query sequences over all 88 slots, one in ten a fill-and-drain sweep (every slot initialized in random order until the array is full, then emptied). in situ: after every successful instruction of a liquidity-heavy history workload (fixed and dynamic arrays mixed per pool, repositions, same-array positions) every tick-array account touched must be well formed, have exactly the size its encoding needs (9988 / 148+112n), bitmap == tags, and be rent exempt. distinct = (spacing, start class, initialized-set, transition)".into();
     rep.exhaustive = true;
     rep.assumptions = vec![
         "buffers are allocated at the maximum encoded size (on chain: 10 KiB realloc padding behind every account)".into(),
@@ -529,7 +583,17 @@ pub fn run(tier: Tier, seed: u64) -> i32 {
         }
         acc
     });
+    let mut acc = acc;
+    let per_shard = tier.pick(40, 1000);
+    acc.merge(super::hrun::run_histories(
+        seed ^ 0x1313,
+        per_shard,
+        move |_r| crate::hist::HistCfg { ops: 120, spl_only: false, lifecycle_ext: true, w_swap: 25, w_liq: 50, w_fees: 5, w_lifecycle: 14, w_clock: 1, w_setters: 1, spacings: vec![1, 8, 64, 128], ..Default::default() },
+        || vec![Box::new(C13InSitu) as Box<dyn crate::hist::Monitor>],
+    ));
     rep.acc = acc;
+    rep.floor("dynamic_tick_arrays_checked", 5000);
+    rep.floor("dynamic_tick_array_resizes_seen", 1000);
     rep.floor("states", 256 * ncombos as u64 * 9 / 10);
     rep.floor("transitions", 16 * 256 * ncombos as u64 * 9 / 10);
     rep.floor("random_updates", rand_ops * 6 / 10);
